@@ -502,7 +502,7 @@ def run(tier):
     chk.rule = ('libraries of 3-6 cells (+2-4 spare cells outside the library, 2-4 raw cells read from an independently encoded file) with shared '
                 'sub-cells, references by pointer, to raw cells and by name to absent cells; histories of 5-24 operations drawn from add, remove '
                 '(unreferenced cells), rename (both overloads), the four replace_cell overloads, remap_tags, deep/shallow copy; after every '
-                'operation the graph (each reference\'s type and target identity), top_level, get_dependencies / get_raw_dependencies (direct '
+                'operation the graph (each reference\'s type and target identity), top_level (also on every shallow and deep library copy), get_dependencies / get_raw_dependencies (direct '
                 'or recursive) of a random cell and the tags in use are compared with an abstract cell-graph model; element content compared '
                 'between start and end. Non-trivial: a rename or replace that rewrites at least one reference (followed by the queries).')
     chk.assumptions = ['top_level is not judged while a by-name reference designates a cell present in the library (the statement does not fix whether such a reference makes its target a dependency); rename/replace must still follow those references',
